@@ -141,6 +141,7 @@ pub fn profile_for(prop: &str) -> Profile {
         }
         "C20" => {
             p.name = "c20";
+            p.forks = vec![("c20_instantiate", 4)];
             p.w[16] = 20;
             p.admin_chaos = true;
             p.tx_fault_pct = 20;
@@ -369,6 +370,20 @@ impl Gen {
                 }
                 if a == 0 || !self.e1_bond_ok(sim, tok, a) {
                     return None;
+                }
+                // odd payments: another coin instead of / next to the staking coin, or none at all
+                if self.rng.chance(1, 14) {
+                    let other = *self.rng.pick(&[REWARD_DENOM, EXTRA_SWAP_DENOM]);
+                    let ob = sim.w.balance(&u, other);
+                    let oa = if ob > 0 { self.rng.range(1, ob.min(1_000_000) as u64) as u128 } else { 0 };
+                    let mut funds = match self.rng.below(4) {
+                        0 => vec![],
+                        1 => vec![cosmwasm_std::Coin::new(oa, other)],
+                        2 => vec![cosmwasm_std::Coin::new(a, DENOM), cosmwasm_std::Coin::new(oa, other)],
+                        _ => vec![cosmwasm_std::Coin::new(oa, other), cosmwasm_std::Coin::new(a, DENOM)],
+                    };
+                    funds.retain(|c| !c.amount.is_zero());
+                    return Some(if cat == 0 { raw("bond_odd_funds", &u, HUB, &basset::hub::ExecuteMsg::Bond {}, funds) } else { raw("bond_stsei_odd_funds", &u, HUB, &basset::hub::ExecuteMsg::BondForStSei {}, funds) });
                 }
                 Some(if cat == 0 { Op::Bond { user: u, amount: a.into() } } else { Op::BondStSei { user: u, amount: a.into() } })
             }
